@@ -33,15 +33,22 @@ THEOREMS = [_T + n for n in [
     "raise_flag_valueerror_only_ip", "net_broadcast_strip_spec_ip",
     # the law is satisfiable; checkers reject the known-bad behaviour
     "inetLaw_satisfiable",
+    # the port of glibc's inet_pton6/inet_ntop6 that the driver runs satisfies InetLaw (all 2^128 addresses,
+    # all strings); the _v6/_ip theorems instantiated with it, without hypothesis
+    "glibc_roundtrip", "glibc_inetLaw",
+    "normalize_idem_v6_concrete", "normalize_canonical_v6_concrete", "net_broadcast_strip_spec_v6_concrete",
+    "generic_mapped_to_v4_concrete", "normalize_idem_ip_concrete", "normalize_canonical_ip_concrete",
+    "malformed_unchanged_ip_concrete", "net_broadcast_strip_spec_ip_concrete",
 ]]
 TRUSTED_BASE = [
     "Lean 4 kernel; axioms of every listed theorem audited ⊆ {propext, Classical.choice, Quot.sound}",
     "harness/translate.py + translate_addr.py (regex literals, option tuples, range constants → Vinegar.Generated)",
     "hand-written recognisers of the two regular expressions (tied to the generated literals by decide-lemmas, "
     "validated against `re` by the correspondence)",
-    "glibc inet_pton/inet_ntop (AF_INET6): assumed to satisfy InetLaw (round trip, 16 bytes, ':' present and '/' "
-    "absent in textual addresses); the driver runs a Lean port of both functions and every case compares it with "
-    "the real socket.inet_pton/ntop on all strings involved",
+    "glibc inet_pton/inet_ntop (AF_INET6): trusted only to COMPUTE what the Lean port (Vinegar.Addr.Glibc) computes — "
+    "every case compares the port with the real socket.inet_pton/ntop on all strings involved; that the port "
+    "satisfies InetLaw (round trip for all 2^128 addresses, 16 bytes, ':' present and '/' absent in parsed text) "
+    "is proved (glibc_roundtrip, glibc_inetLaw), no longer assumed",
     "CPython int()/str()/format of small integers, str.partition/split (modelled concretely, validated differentially)",
     "the compiled Lean driver and this correspondence harness; stdlib ipaddress as second oracle",
 ]
